@@ -77,6 +77,7 @@ const (
 	ProblemRateLimited  = "urn:ietf:params:acme:error:rateLimited"
 	ProblemInternal     = "urn:ietf:params:acme:error:serverInternal"
 	ProblemNoAccount    = "urn:ietf:params:acme:error:accountDoesNotExist"
+	ProblemConnection   = "urn:ietf:params:acme:error:connection"
 )
 
 // Exchange is one logged HTTP exchange.
@@ -108,6 +109,7 @@ type Exchange struct {
 	Issued     string // Replay-Nonce of the reply ("" none)
 	Location   string
 	ObjStatus  string // "status" member of the object in a success reply
+	ReplyBody  []byte // body of the reply as sent
 	RetryAfter string
 	Cancelled  bool // the caller's context was cancelled during this exchange
 	Final      bool // success reply carrying a poll object in a final state, or any non-poll success
@@ -324,6 +326,14 @@ func (s *Server) authzObject(status string) []byte {
 	ch := map[string]any{"type": "http-01", "url": s.ChalURL(), "token": "token-1", "status": "pending"}
 	if status == "valid" {
 		ch["status"] = "valid"
+	}
+	if status == "pending" {
+		// RFC 8555 8.2: while the server retries a validation the challenge is "processing"
+		// and carries the error of the last attempt; a later reply may drop it again
+		ch["status"] = "processing"
+		ch["error"] = map[string]any{"type": ProblemConnection, "detail": "first attempt failed, retrying", "status": 400,
+			"subproblems": []any{map[string]any{"type": ProblemConnection, "detail": "sub", "identifier": map[string]string{"type": "dns", "value": "example.org"}}}}
+		ch["validated"] = "2029-01-01T00:00:00Z"
 	}
 	if status == "invalid" {
 		ch["status"] = "invalid"
@@ -688,6 +698,7 @@ func (s *Server) RoundTrip(r *http.Request) (*http.Response, error) {
 	if x.Method == "HEAD" {
 		body = nil
 	}
+	x.ReplyBody = body
 	res := &http.Response{
 		StatusCode:    rep.status,
 		Status:        fmt.Sprintf("%d %s", rep.status, http.StatusText(rep.status)),
